@@ -438,6 +438,10 @@ def s_count(ex, st, s, args, kwargs, node):
 def s_isdigit(ex, st, s, args, kwargs, node):
     if isinstance(s, str):
         return s.isdigit()
+    hit = getattr(ex.ctx, "int_strs", {}).get(s.get_id()) if is_z3(s) else None
+    if hit is not None and hit[0].eq(s):
+        used(ex, "str(n).isdigit() for an int n  <=>  n >= 0")
+        return hit[1] >= 0
     used(ex, "str.isdigit = matches [0-9]+")
     return z3.InRe(s, z3.Plus(z3.Range("0", "9")))
 
